@@ -95,9 +95,11 @@ func (d *unmarshalTextDecoder) DecodeStream(s *Stream, depth int64, p unsafe.Poi
 	dst := make([]byte, len(src))
 	copy(dst, src)
 
-	if b, ok := unquoteBytes(dst); ok {
-		dst = b
+	b, ok := unquoteBytes(dst)
+	if !ok {
+		return errors.ErrSyntax("json: invalid string literal for a TextUnmarshaler", s.totalOffset())
 	}
+	dst = b
 	v := *(*interface{})(unsafe.Pointer(&emptyInterface{
 		typ: d.typ,
 		ptr: p,
@@ -152,9 +154,11 @@ func (d *unmarshalTextDecoder) Decode(ctx *RuntimeContext, cursor, depth int64, 
 		}
 	}
 
-	if s, ok := unquoteBytes(src); ok {
-		src = s
+	unquoted, ok := unquoteBytes(src)
+	if !ok {
+		return 0, errors.ErrSyntax("json: invalid string literal for a TextUnmarshaler", start)
 	}
+	src = unquoted
 	v := *(*interface{})(unsafe.Pointer(&emptyInterface{
 		typ: d.typ,
 		ptr: *(*unsafe.Pointer)(unsafe.Pointer(&p)),
@@ -221,7 +225,7 @@ func unquoteBytes(s []byte) (t []byte, ok bool) { //nolint: nonamedreturns
 			switch s[r] {
 			default:
 				return
-			case '"', '\\', '/', '\'':
+			case '"', '\\', '/':
 				b[w] = s[r]
 				r++
 				w++
